@@ -165,15 +165,27 @@ def genumTraitLoop : String := "(index $.Traits $i)"
 def traitsSeen (gates : List String) (env : String → Bool) (traits : List String) : List String :=
   if gates.any env then [] else traits
 
+/-- A documented interface the generated type has to implement: qualified name, whether the
+value type itself (not only its pointer) must implement it, and its method names. -/
+structure IfaceReq where
+  name : String
+  onValue : Bool
+  methods : List String
+  deriving DecidableEq, Repr
+
 /-- Spec (property text): "implement genum.Enum and TypedEnum plus the requested marshalers".
-Pairs (method, must have a value receiver): `ParseGeneric` returns the enum value itself as
-`genum.Enum`, so the interface methods have to be in the method set of the value type;
-`Unmarshal*` necessarily have pointer receivers. -/
+`ParseGeneric` returns the enum value itself as `genum.Enum`, so those interfaces have to be
+implemented by the value type; `Unmarshal*` necessarily have pointer receivers.  The method
+lists of `genum.Enum`/`TypedEnum` are regenerated from genum/definitions.go. -/
+def genumIfaces (ifaceEnum ifaceTypedEnum : List String) (o : GenumOpts) : List IfaceReq :=
+  [⟨"genum.Enum", true, ifaceEnum⟩, ⟨"genum.TypedEnum", true, ifaceTypedEnum⟩]
+  ++ (if o.json then [⟨"json.Marshaler", true, ["MarshalJSON"]⟩, ⟨"json.Unmarshaler", false, ["UnmarshalJSON"]⟩] else [])
+  ++ (if o.text then [⟨"encoding.TextMarshaler", true, ["MarshalText"]⟩, ⟨"encoding.TextUnmarshaler", false, ["UnmarshalText"]⟩] else [])
+  ++ (if o.yaml then [⟨"yaml.Marshaler", true, ["MarshalYAML"]⟩, ⟨"yaml.Unmarshaler", false, ["UnmarshalYAML"]⟩] else [])
+
+/-- The required methods as pairs (method, must have a value receiver). -/
 def genumRequired (ifaceEnum ifaceTypedEnum : List String) (o : GenumOpts) : List (String × Bool) :=
-  (ifaceEnum ++ ifaceTypedEnum).map (·, true)
-  ++ (if o.json then [("MarshalJSON", true), ("UnmarshalJSON", false)] else [])
-  ++ (if o.text then [("MarshalText", true), ("UnmarshalText", false)] else [])
-  ++ (if o.yaml then [("MarshalYAML", true), ("UnmarshalYAML", false)] else [])
+  (genumIfaces ifaceEnum ifaceTypedEnum o).flatMap fun r => r.methods.map (·, r.onValue)
 
 /-- Marshaler methods that were switched off (they must be absent, so that a hand-written one
 does not collide with a generated one). -/
